@@ -150,6 +150,10 @@ func NewValueScanner(tags map[string]map[string]string) *ValueScanner {
 			return "", "", false
 		}
 		tv, ok := tags[n.Nm][field.StructField.Name]
+		// "prefix|path" selects the prefix tag instead of value
+		if i := strings.Index(tv, "|"); ok && i > 0 {
+			return tv[:i], tv[i+1:], true
+		}
 		return "value", tv, ok
 	}
 	return s
@@ -607,6 +611,12 @@ func RunGraph(p *GraphProg, ch *envx.Chooser) *GraphObs {
 				}
 				if x.Node == i && x.Kind == "cfg-opt" {
 					vt[nm]["V0"] = "${cfg.nokey},required=false"
+				}
+				if x.Node == i && x.Kind == "pfx-req" {
+					vt[nm]["V0"] = "prefix|cfg.nokey"
+				}
+				if x.Node == i && x.Kind == "pfx-opt" {
+					vt[nm]["V0"] = "prefix|cfg.nokey,required=false"
 				}
 			}
 			sb.WriteString("  " + nm + ": v-" + nm + "\n")
